@@ -61,12 +61,13 @@ class PyObj:
 
 class PyList:
     """list/deque of concrete length (items may be symbolic)."""
-    __slots__ = ('items', 'cls', 'is_deque')
+    __slots__ = ('items', 'cls', 'is_deque', 'orig')
 
     def __init__(self, items=None, cls=None):
         self.items = list(items) if items is not None else []
         self.cls = cls      # ClassObj when an interpreted subclass of list (SortedList)
         self.is_deque = False
+        self.orig = None    # for old(...) copies: the live object this is a pre-state copy of
 
     def __repr__(self):
         return 'PyList%r' % (self.items,)
@@ -74,9 +75,10 @@ class PyList:
 
 class SymSeq:
     """list of symbolic length over scalars: z3 Array(Int -> sort) + length term."""
-    __slots__ = ('arr', 'n', 'ek', 'cls')
+    __slots__ = ('arr', 'n', 'ek', 'cls', 'orig')
 
     def __init__(self, arr, n, ek, cls=None):
+        self.orig = None
         self.arr = arr
         self.n = n
         self.ek = ek
@@ -88,10 +90,11 @@ class SymSeq:
 
 class PyDict:
     """dict with concrete (hashable native / EnumMember / ClassObj) keys, insertion ordered."""
-    __slots__ = ('d',)
+    __slots__ = ('d', 'orig')
 
     def __init__(self, d=None):
         self.d = dict(d) if d is not None else {}
+        self.orig = None
 
     def __repr__(self):
         return 'PyDict%r' % (self.d,)
